@@ -1,6 +1,18 @@
 (* C11 — Every storage adapter honours the engine contract.
-   Property theorems only: each is closed by `exact <lemma>` and followed by Print Assumptions. *)
-From KB Require Import Base.Cases Model.Store Model.Adapters Model.C11Cases Proofs.Store.
+   Property theorems only: each is closed by `exact <lemma>` and followed by Print Assumptions.
+
+   Reading guide.  `refines_on A m R ok` (Proofs/C11Cases.v): from adapter state s and contract state c with R s c,
+   for every operation sequence admitted by `ok` (batches with several conditions, conditions on missing keys, a key
+   written twice, Del-then-CAS, gets, deletes, compare-and-deletes through a held iterator, forward / backward /
+   limited iterations with arbitrary bounds, start = end) the contract oracle o_run_gen accepts the adapter's answers
+   step by step — error class ok | cond_failed | not_found; the payload of a failed put-if-absent; iterator output =
+   a prefix of the contract's interval output (hence inside the interval and in order) of length >= min(limit, all) —
+   and the final states are related by R again (the raw contents are the contract's map; a failed batch leaves
+   the contract state, hence the map, unchanged).
+   `C11_full_statement A m R` is the same without any restriction on the sequences.  It is REFUTED for memkv, Badger
+   and TiKV by the three deviations recorded in known_findings.d/C11.json, and proved for the complement. *)
+From KB Require Import Base.Cases Model.Store Model.Adapters Model.C11Cases
+  Proofs.Store Proofs.AdapterLists Proofs.Adapters Proofs.C11Cases.
 Local Open Scope N_scope.
 
 (* ---- the contract's ordered map ---- *)
@@ -29,7 +41,11 @@ Theorem C11_get_remove_other : forall (s : store) k k', k' <> k -> get (remove s
 Proof. exact (@get_remove_other bytes). Qed.
 Print Assumptions C11_get_remove_other.
 
-(* an iteration yields exactly the records of the interval (start inclusive, end exclusive) *)
+Theorem C11_store_extensional : forall (s1 s2 : store), sorted s1 -> sorted s2 -> (forall k, get s1 k = get s2 k) -> s1 = s2.
+Proof. exact (@sorted_ext bytes). Qed.
+Print Assumptions C11_store_extensional.
+
+(* an iteration yields exactly the records of the interval (start inclusive, end exclusive) ... *)
 Theorem C11_iter_exact : forall (s : store) a b e,
   In e (iter_all s a b) <->
   In e s /\ (if is_fwd a b then bcmp a (fst e) <> Gt /\ bcmp (fst e) b = Lt
@@ -37,6 +53,7 @@ Theorem C11_iter_exact : forall (s : store) a b e,
 Proof. exact (@iter_all_in bytes). Qed.
 Print Assumptions C11_iter_exact.
 
+(* ... in the requested direction; nothing when start = end *)
 Theorem C11_iter_ascending : forall (s : store) a b, sorted s -> is_fwd a b = true -> sorted (iter_all s a b).
 Proof. exact (@iter_all_fwd_sorted bytes). Qed.
 Print Assumptions C11_iter_ascending.
@@ -52,3 +69,133 @@ Print Assumptions C11_iter_same_bounds.
 Theorem C11_batch_sorted : forall m c ops c', cs_sorted c -> batch_eval m c ops = Applied c' -> cs_sorted c'.
 Proof. exact batch_eval_sorted. Qed.
 Print Assumptions C11_batch_sorted.
+
+(* ---- refinement, per adapter ---- *)
+
+(* memkv refines the contract (compare-and-delete by value) on sequences that write no empty value (finding C11-F3) *)
+Theorem C11_refines_memkv_except_F3 : refines_on memkv ByValue mem_R seq_nonempty.
+Proof. exact refines_memkv. Qed.
+Print Assumptions C11_refines_memkv_except_F3.
+
+Theorem C11_refines_memkv_refuted : ~ C11_full_statement memkv ByValue mem_R.
+Proof. exact full_memkv_refuted. Qed.
+Print Assumptions C11_refines_memkv_refuted.
+
+(* TiKV refines the contract (by value) on sequences that write no empty value (finding C11-F1) *)
+Theorem C11_refines_tikv_except_F1 : refines_on tikv ByValue tikv_R seq_nonempty.
+Proof. exact refines_tikv. Qed.
+Print Assumptions C11_refines_tikv_except_F1.
+
+Theorem C11_refines_tikv_refuted : ~ C11_full_statement tikv ByValue tikv_R.
+Proof. exact full_tikv_refuted. Qed.
+Print Assumptions C11_refines_tikv_refuted.
+
+(* Badger refines the contract (compare-and-delete by version) on sequences without a DelCurrent(held iterator)
+   after a write in the same batch (finding C11-F2) *)
+Theorem C11_refines_badger_except_F2 : refines_on badger ByVersion badger_R seq_fresh.
+Proof. exact refines_badger. Qed.
+Print Assumptions C11_refines_badger_except_F2.
+
+Theorem C11_refines_badger_refuted : ~ C11_full_statement badger ByVersion badger_R.
+Proof. exact full_badger_refuted. Qed.
+Print Assumptions C11_refines_badger_refuted.
+
+(* the metrics wrapper refines whatever its inner adapter refines *)
+Theorem C11_refines_wrapper : forall A m (S : sim A m), refines_on (wrapper A) m (sim_R A m S) (Forall (sop_ok S)).
+Proof. exact refines_wrapper. Qed.
+Print Assumptions C11_refines_wrapper.
+
+(* the exact per-batch statements behind the sequence theorems (complement of the deviations at batch level) *)
+Theorem C11_batch_refines_memkv : forall s c ops, mem_R s c -> Forall bop_nonempty ops ->
+  batch_proj_ok ops (batch_eval ByValue c ops) (snd (fst (mem_batch_run s ops))) (snd (mem_batch_run s ops)) = true /\
+  match batch_eval ByValue c ops with
+  | Applied c' => mem_R (fst (fst (mem_batch_run s ops))) c'
+  | CondFailed _ _ => fst (fst (mem_batch_run s ops)) = s
+  end.
+Proof. exact mem_batch_sim. Qed.
+Print Assumptions C11_batch_refines_memkv.
+
+Theorem C11_batch_refines_tikv : forall s c ops, tikv_R s c -> Forall bop_wnonempty ops ->
+  batch_proj_ok ops (batch_eval ByValue c ops) (snd (fst (t_batch s ops))) (snd (t_batch s ops)) = true /\
+  match batch_eval ByValue c ops with
+  | Applied c' => tikv_R (fst (fst (t_batch s ops))) c'
+  | CondFailed _ _ => fst (fst (t_batch s ops)) = s
+  end.
+Proof. exact tikv_batch_sim. Qed.
+Print Assumptions C11_batch_refines_tikv.
+
+Theorem C11_batch_refines_badger : forall s c ops, badger_R s c -> written_before_delcur ops [] = false ->
+  batch_proj_ok ops (batch_eval ByVersion c ops) (snd (fst (b_batch s ops))) (snd (b_batch s ops)) = true /\
+  match batch_eval ByVersion c ops with
+  | Applied c' => badger_R (fst (fst (b_batch s ops))) c'
+  | CondFailed _ _ => fst (fst (b_batch s ops)) = s
+  end.
+Proof. exact badger_batch_sim. Qed.
+Print Assumptions C11_batch_refines_badger.
+
+(* iterators: memkv delivers the whole interval, Badger exactly the limit, TiKV limit + 1 — always a prefix *)
+Theorem C11_iter_memkv : forall s a b l, sorted s -> mem_iter s a b l = iter_all s a b.
+Proof. exact mem_iter_all. Qed.
+Print Assumptions C11_iter_memkv.
+
+Theorem C11_iter_tikv : forall s a b l, sorted s ->
+  exists n, t_iter s a b l = firstn n (iter_all s a b) /\ (min_count l (length (iter_all s a b)) <= n)%nat.
+Proof. exact t_iter_prefix. Qed.
+Print Assumptions C11_iter_tikv.
+
+Theorem C11_iter_badger : forall s c a b l, badger_R s c ->
+  exists n, b_iter s a b l = firstn n (citems ByVersion c a b) /\ (min_count l (length (citems ByVersion c a b)) <= n)%nat.
+Proof. exact b_iter_prefix. Qed.
+Print Assumptions C11_iter_badger.
+
+(* ---- all or nothing: a batch that does not answer ok leaves the adapter's state untouched (no hypothesis) ---- *)
+Theorem C11_atomic_memkv : forall s ops, snd (fst (mem_batch_run s ops)) <> ROk -> fst (fst (mem_batch_run s ops)) = s.
+Proof. exact mem_atomic. Qed.
+Print Assumptions C11_atomic_memkv.
+
+Theorem C11_atomic_badger : forall s ops, snd (fst (b_batch s ops)) <> ROk -> fst (fst (b_batch s ops)) = s.
+Proof. exact badger_atomic. Qed.
+Print Assumptions C11_atomic_badger.
+
+Theorem C11_atomic_tikv : forall env s ops, snd (fst (t_batch_env env s ops)) <> ROk -> fst (fst (t_batch_env env s ops)) = s.
+Proof. exact tikv_atomic. Qed.
+Print Assumptions C11_atomic_tikv.
+
+(* ---- the executable oracle used on the implementation's observations accepts every model run outside the deviations ---- *)
+Theorem C11_oracle_sound : forall c, c11_clean c -> c11_check c = true -> c11_oracle c = None.
+Proof. exact c11_oracle_sound. Qed.
+Print Assumptions C11_oracle_sound.
+
+(* ---- non-vacuity ---- *)
+
+(* the relations are inhabited by a non-trivial state, and a sequence with a failing second condition, a CAS on a
+   missing key, a backward iteration over an empty interval above stored keys and a DelCurrent after a change is
+   admitted by every `ok` and panic-free *)
+Definition ex_ops : list sop :=
+  [SBatch [BPut [98] [49] 0; BPut [100] [50] 0; BPut [102] [51] 0];
+   SBatch [BCAS [98] [57] [49] 0; BPutNX [100] [55] 0];
+   SBatch [BCAS [97] [50] [49] 0];
+   SIter [99; 57] [99; 48] 0; SIter [102] [98] 1;
+   SHold [0] [255; 255] 0 0; SBatch [BPut [98] [52] 0]; SDelCur; SGet [98]].
+
+Example C11_ex_memkv : mem_R [([98], [49])] (cs_of [([98], [49])]) /\ seq_nonempty ex_ops /\
+  Forall not_panic (snd (a_run memkv [] None ex_ops)).
+Proof. split; [repeat split; repeat constructor; discriminate|]. split; [repeat constructor; discriminate|]. vm_compute. repeat constructor. Qed.
+
+Example C11_ex_tikv : tikv_R [([98], [49])] (cs_of [([98], [49])]) /\ Forall not_panic (snd (a_run tikv [] None ex_ops)).
+Proof. split; [repeat split; repeat constructor|]. vm_compute. repeat constructor. Qed.
+
+Example C11_ex_badger : badger_R (mk_bstate [([98], ([49], 0))] 0) (cs_of [([98], [49])]) /\ seq_fresh ex_ops /\
+  Forall not_panic (snd (a_run badger (mk_bstate [] 0) None ex_ops)).
+Proof. split; [repeat split; repeat constructor|]. split; [repeat constructor|]. vm_compute. repeat constructor. Qed.
+
+(* the oracle is not vacuous: it rejects a wrong answer (a CAS on a missing key reported as not-found, the defect
+   fixed by da987ef) and a backward iteration that leaks a key below the interval (fixed by 7c0e624) *)
+Example C11_oracle_rejects_not_found :
+  c11_oracle (mk_c11 ETiKV [(SBatch [BCAS [97] [50] [49] 0], OBatch RNotFound None)] []) = Some 0.
+Proof. vm_compute. reflexivity. Qed.
+
+Example C11_oracle_rejects_leak :
+  c11_oracle (mk_c11 ETiKV [(SBatch [BPut [98] [49] 0], OBatch ROk None);
+                            (SIter [99; 57] [99; 48] 0, OIter ROk [([98], [49])])] [([98], [49])]) = Some 0.
+Proof. vm_compute. reflexivity. Qed.
